@@ -41,15 +41,17 @@ META.update({
         note="relative to the opaque matcher; make_patch not under contract",
     ),
     "C03": dict(
-        technique="contract-based deductive verification of base_diff / default_diff / ordered_diff / _ignore_case and strip_unchanged / mark_unchanged (AST->VC with ADT lists and dicts, z3+cvc5) + lemmas (ops exact, strip idempotent); " + _B + " for the whole diff construction and the text renderings",
-        text="exploration + proved links: base_diff (hence default_diff, ordered_diff) is proved equal to its spec for every level (REMOVED rows "
+        technique="contract-based deductive verification of make_diff / apply_diff_rb / the rulebook matcher / base_diff / default_diff / ordered_diff / _ignore_case and strip_unchanged / mark_unchanged (AST->VC with ADT lists and dicts, z3+cvc5) + lemmas (ops exact, strip idempotent); " + _B + " for the whole diff construction and the text renderings",
+        text="exploration + proved links: make_diff / apply_diff_rb are proved (every row gets the match of the rulebook matcher, rows no rule "
+             "matches are dropped from both sides and only those, the caller's trees untouched); _find_rules_matches / _match_row_to_rules "
+             "are proved relative to re.match; base_diff (hence default_diff, ordered_diff) is proved equal to its spec for every level (REMOVED rows "
              "of old absent from new at their old index; rows of new ADDED iff absent from old, else MOVED / parent's op by the index rule; "
              "merged by the index sort), with lemmas: removed only if absent from new, added iff absent from old, nothing removed when all rows "
              "stay. strip_unchanged and mark_unchanged are proved equal to their specs for every diff (any length, any depth); "
              "strip is idempotent (lemma). Reconstruction (proj_old/proj_new), exact ops, self-diff empty, MOVED, formatter.diff and "
              "gen_pre_as_diff read-back: bounded layer over 7 real compiled rulebooks x all pairs of small trees (depth<=2/3) x 14 vendor "
              "formatters. 4 known findings (MOVED by index, old order of MOVED rows, unchanged %rewrite groups absent).",
-        note="call_diff_logic (assumed contract), apply_diff_rb, make_diff, rewrite_diff, the %ignore_case branch: bounded only; list.sort opaque (A3)",
+        note="call_diff_logic (assumed contract), rewrite_diff, the %ignore_case branch: bounded only; list.sort opaque (A3); composition across sidecars by name",
     ),
     "C04": dict(
         technique="contract-based deductive verification of the indentation parse chain (shared with C05); " + _B + " for every vendor's join/split round trip",
